@@ -183,8 +183,10 @@ func (n *Node) typ(plain bool) reflect.Type {
 		for i, c := range n.C {
 			tag := ""
 			if i < len(n.Tags) && n.Tags[i] >= 0 && n.Tags[i] < len(tagTemplates) {
-				if tpl := tagTemplates[n.Tags[i]]; tpl != "" {
+				if tpl := tagTemplates[n.Tags[i]]; strings.Contains(tpl, "%[1]d") {
 					tag = fmt.Sprintf(tpl, i)
+				} else {
+					tag = tpl
 				}
 			}
 			fs[i] = reflect.StructField{Name: fmt.Sprintf("F%d", i), Type: c.typ(plain), Tag: reflect.StructTag(tag)}
@@ -378,6 +380,7 @@ type shapeInfo struct {
 	real        bool
 	ptrOK         bool // no pointer at all, or only a root pointer to a composite (printed as &{…}, never as an address or through a method)
 	jsonStringTag bool // a field tagged `json:",string"` (quotes plain strings twice, ignored for TextMarshalers)
+	xmlIfaceText  bool // a field tagged as XML attribute or chardata whose type is not T or *T for a leaf type T
 	ptrUnderMul bool // a ptr (or real: it holds pointers) below a multi-entry omap
 	sig         string
 }
@@ -427,9 +430,21 @@ func (n *Node) info() *shapeInfo {
 		}
 		if n.K == "struct" {
 			fmt.Fprintf(&sb, "%v", n.Tags)
-			for _, tg := range n.Tags {
+			for i, tg := range n.Tags {
 				if tg == 6 {
 					si.jsonStringTag = true
+				}
+				if (tg == 7 || tg == 8) && i < len(n.C) {
+					// encoding/xml consults TextMarshaler for such fields only on the
+					// field's static type (or its address); it then dereferences
+					// pointer/interface chains and walks slices itself
+					c := n.C[i]
+					if c.K == "ptr" {
+						c = c.C[0]
+					}
+					if c.K != "opaque" && c.K != "plain" && c.K != "int" {
+						si.xmlIfaceText = true
+					}
 				}
 			}
 		}
@@ -476,6 +491,9 @@ func realNode(name string, hdrs int) *Node { return &Node{K: "real", Real: name,
 // depends on the secrets; entries must therefore render identically).
 func genNode(t *rapid.T, depth int, noPtr bool) *Node {
 	kinds := []string{"opaque", "opaque", "opaque", "plain", "int"}
+	if depth == 0 {
+		kinds = []string{"opaque"} // the bare value is 1 of 11 root kinds; the sweep covers it densely
+	}
 	if depth < 4 {
 		kinds = append(kinds, "slice", "array", "map", "omap", "struct", "struct", "iface")
 		if !noPtr {
